@@ -81,6 +81,9 @@ pub struct FileSystemState { p: core::marker::PhantomData<u8> }
 impl FileSystemState {
     /// the artifact set this state describes
     pub uninterp spec fn describes(&self) -> Seq<ArtifactPathAndContent>;
+    /// `FileSystemState::default()` (derive(Default)): the state of an EMPTY directory
+    #[verifier::external_body]
+    pub fn default() -> (r: FileSystemState) ensures r.describes() == Seq::<ArtifactPathAndContent>::empty() { unimplemented!() }
     /// FileSystemState::from(&[ArtifactPathAndContent]) (verified in unit fs_state)
     #[verifier::external_body]
     pub fn from_artifacts(a: &[ArtifactPathAndContent]) -> (r: FileSystemState) ensures r.describes() == a@ { unimplemented!() }
@@ -126,13 +129,16 @@ pub struct Instant { p: core::marker::PhantomData<u8> }
 //@end
 
 //@fn rel=crates/isograph_compiler/src/batch_compile.rs name=compile vis=pub ret=r serves=C17,C19
-//@rw R4
+//@rw R4 R6b
 //@sub "\.map_err\(Diagnostic::from\)\?" => ".map_err_diag()?" n=*
 //@contract
     ensures
         // C17: generation failed => error reported, remembered state untouched (and, by
         // the preconditions of the planner and of apply, nothing was planned or applied)
-        old(state).db.gen_result() is Err ==> r is Err && final(state).file_system_state == old(state).file_system_state, //@O C17.O-2m_failed_generation_leaves_state_untouched
+        old(state).db.gen_result() is Err ==> r is Err, //@O C17.O-2m_failed_generation_is_reported
+        // ... and does not forget (or change) what the session knows about the directory: the next
+        // successful compile still writes only what changed
+        old(state).db.gen_result() is Err ==> final(state).file_system_state == old(state).file_system_state, //@O C18.O-9m_failed_generation_keeps_the_record_of_the_directory
         // C19: a write that failed part-way must not leave a remembered state that claims
         // the directory is up to date; the next compile has to start from scratch
         old(state).db.gen_result() is Ok && r is Err ==> final(state).file_system_state is None, //@O C18+C19.O-1m_failed_write_forgets_directory_state
